@@ -47,13 +47,21 @@ class Meta:
 def gen_regions(rng, n):
     """lon/lat boxes on a half-degree lattice: equal, nested, touching (edge / corner), partially overlapping, far apart"""
     regs = {}
+    used = set()
     for i in range(n):
-        far = rng.random() < 0.2
-        lon0 = (40 if far else 10) + rng.choice([0, 0.5, 1, 1.5, 2])
-        lat0 = 10 + rng.choice([0, 0.5, 1, 1.5, 2])
-        w = rng.choice([0.5, 0.5, 1, 2])
-        h = rng.choice([0.5, 0.5, 1, 2])
-        regs[str(i)] = [lon0, lon0 + w, lat0, lat0 + h]
+        # region ids must denote DISTINCT boxes: the stored region is decoded back to an id by its encoding, so two ids
+        # with the same box are indistinguishable in what the implementation stores (records may still share a region id)
+        while True:
+            far = rng.random() < 0.2
+            lon0 = (40 if far else 10) + rng.choice([0, 0.5, 1, 1.5, 2])
+            lat0 = 10 + rng.choice([0, 0.5, 1, 1.5, 2])
+            w = rng.choice([0.5, 0.5, 1, 2])
+            h = rng.choice([0.5, 0.5, 1, 2])
+            box = (lon0, lon0 + w, lat0, lat0 + h)
+            if box not in used:
+                used.add(box)
+                break
+        regs[str(i)] = list(box)
     return regs
 
 
@@ -374,6 +382,15 @@ def build_payloads(ctx, meta, groups, npop, k_groups, quick):
 def check_population(ctx: Ctx, meta: Meta, pi, payload, d, res, hcases, qcases, defs, model=True, rcases=None, tcases=None):
     """oracle on one population's observations + emission of the model cases"""
     P = d["P"]
+    # region ids with the same box are one region as far as the stored bytes go: use the smallest id everywhere
+    canon, first = {}, {}
+    for k in sorted(d["regions"], key=int):
+        canon[int(k)] = first.setdefault(tuple(d["regions"][k]), int(k))
+    if any(k != v for k, v in canon.items()):
+        cr = lambda x: canon.get(x, x) if x is not None else None      # noqa: E731
+        P = {e: [(r, cr(rid), ts) for r, rid, ts in P[e]] for e in P}
+        payload = dict(payload, histories=[dict(h, ops=[dict(o, rid=cr(o.get("rid"))) for o in h["ops"]]) for h in payload["histories"]])
+        ctx.hist("generator", "populations with two region ids for one box (canonicalised)")
     geom = res["geometry"]
     ovx = geom["ov_exact"]
     # hypothesis env_sound, exercised on every population: overlapping regions share a pixel of the envelope
